@@ -14,6 +14,7 @@ void vs_assert(int cond, const char* msg);
 uint32_t vs_choose(uint32_t n);                             // fork: returns 0..n-1
 void vs_setenv(const char* name, const char* value);          // environment variable visible to getenv()
 void vs_file(const char* path, const char* data, unsigned long len);   // a readable file with this content (model file table / real file in the native build)
+void vs_setpid(int pid);                                    // the process continues as another process (as after fork()): getpid() returns pid from now on
 void vs_note(const char* what, uint64_t value);             // observable (compared natively vs symbolic-concrete)
 }
 #define HX extern "C" __attribute__((noinline))
